@@ -192,6 +192,37 @@ func checkC21(c *Ctx) *report.Result {
 		}
 	}
 
+	// ---- Q-power: power-off clears the frequency registers (they are write-only, so C18's read-back cannot see it):
+	// after a power cycle f is 0 until written again, and the noise divisor and shift are those of NR43 = 00
+	r.Rule("Q-power", "after the NR52 power-off write the frequency field of channels 1-3 is 0 and the cells NR43 fills hold what NR43 := 00 gives, whatever they held before")
+	{
+		pObj, pPath := c.powerCell()
+		if pObj == nil {
+			r.Fail("unresolved", "Q-power", "power flag", "", "not found")
+		} else {
+			on := func(st *ai.State) { st.SetCell(pObj, pPath, ai.NewConstBool(true)) }
+			off := c.evalDecoder(true, 0xFF26, 0xFF26, on, ai.NewConstInt(8, false, 0x00))
+			for k := 0; k < 3; k++ {
+				f, fc := constOf(c.cellInt(off.Post, chObjs[k], ".frequency"))
+				r.Ob("Q-power", off.Post != nil && fc && f == 0, fmt.Sprintf("channel %d: frequency is 0 after power-off", k+1), hposOf(c, off), fmt.Sprintf("frequency after the power-off write: %s (documented 0: NRx3 and NRx4 are cleared)", ai.ValueString(c.cellInt(off.Post, chObjs[k], ".frequency"))))
+			}
+			z := c.evalDecoder(true, 0xFF22, 0xFF22, on, ai.NewConstInt(8, false, 0x00))
+			n := 0
+			var bad []string
+			for _, p := range c.storedCellsOf(z, chObjs[3]) {
+				a, b := z.Post.LoadPtr(&ai.Ptr{Obj: chObjs[3], Path: p}), ai.Value(nil)
+				if off.Post != nil {
+					b = off.Post.LoadPtr(&ai.Ptr{Obj: chObjs[3], Path: p})
+				}
+				n++
+				if a == nil || b == nil || ai.ValueString(a) != ai.ValueString(b) || !isConstValue(a) {
+					bad = append(bad, fmt.Sprintf("%s: NR43 := 00 leaves %s, power-off leaves %s", p, ai.ValueString(a), ai.ValueString(b)))
+				}
+			}
+			r.Ob("Q-power", n > 0 && len(bad) == 0, "channel 4: the cells NR43 fills are cleared by power-off", hposOf(c, off), strings.Join(bad, "; "))
+		}
+	}
+
 	// ---- Q-step for squares and wave
 	steps := []int{8, 8, 32}
 	posPath := []string{".dutyIndex", ".dutyIndex", ".position"}
@@ -445,4 +476,17 @@ func checkC21(c *Ctx) *report.Result {
 func (c *Ctx) widthOf(o *ai.Object, path string) int {
 	w, _ := ai.TypeShape(ai.LeafTypeAt(o.T, path))
 	return w
+}
+
+// isConstValue: an integer or boolean constant.
+func isConstValue(v ai.Value) bool {
+	switch x := v.(type) {
+	case *ai.Int:
+		_, ok := x.Const()
+		return ok
+	case *ai.Bool:
+		_, ok := x.Const()
+		return ok
+	}
+	return false
 }
